@@ -300,7 +300,16 @@ func (mT *provider) subscriber() {
 					mT.retainSearch(req.Filter, &r)
 				}
 
-				resp.Retained = r
+				// the subscriber gets copies: a session lowers their QoS to the granted one and
+				// clears RETAIN, which must not reach the stored messages
+				for _, rt := range r {
+					msg, err := rt.Clone(mqttp.ProtocolV50)
+					if err != nil {
+						mT.log.Errorf("clone error %s", err.Error())
+					} else {
+						resp.Retained = append(resp.Retained, msg)
+					}
+				}
 
 				if !exists {
 					mT.metricsSubs.OnSubscribe()
